@@ -462,6 +462,80 @@ def cmp(a, b, tol_abs, rel, path, diffs, discrete):
         discrete.append((path, type(a).__name__, type(b).__name__))
 
 
+def has_sort_tie(case):
+    """numpy's and numba's argsort order EQUAL keys differently (both are unstable quicksorts): a "sort" batch with two
+    equal x-min coordinates is inserted in a different order in the two modes -> different (equally valid) tree layout"""
+    for h in (case.get("h1", []), case.get("h2", [])):
+        for b in h:
+            if b.get("mode") == "sort":
+                xs = [bx[0] for bx in b["boxes"]]
+                if len(set(xs)) < len(xs):
+                    return True
+    return False
+
+
+LAYOUT_KEYS = ("s1", "s2", "o1", "o2", "boxes1", "boxes2")
+
+
+def normalise(c, a, b):
+    """order-insensitive views of results whose ORDER is not part of the specification (index SETS are):
+    AABB tree query answers, reported tetrahedron pairs; layout of the tree only when the insertion order is
+    determined (no ties among "sort" keys)."""
+    if c["k"] == "aabbtree" or (c["k"] == "worker" and c.get("module") == "c05"):
+        out = []
+        tie = has_sort_tie(c["case"])
+        for r in (a, b):
+            j = dict(r["ok"]["json"])
+            if "q" in j:
+                j["q"] = [sorted(x) for x in j["q"]]
+            for k in ("pairs",):
+                if k in j:
+                    j[k] = sorted(map(tuple, j[k]))
+                    j[k] = [list(x) for x in j[k]]
+            for k in ("u1", "u2"):
+                if k in j:
+                    j[k] = sorted(j[k])
+            if tie:
+                for k in LAYOUT_KEYS:
+                    j.pop(k, None)
+            out.append({"ok": {"json": j}})
+        return out[0], out[1], ("aabbtree_layout_skipped_sort_tie" if tie else None)
+    if c["k"] == "worker" and c.get("module") == "c15" and c["case"].get("kind") == "bodies":
+        ja, jb = dict(a["ok"]["json"]), dict(b["ok"]["json"])
+        if "exc" in ja or "exc" in jb:
+            return a, b, None
+        note = None
+        if ja.get("reported_pairs") != jb.get("reported_pairs"):
+            note = "tetrahedron_pairs_reported_in_different_order"
+        for j in (ja, jb):
+            j["reported_pairs"] = sorted(map(tuple, j.get("reported_pairs", [])))
+            j["reported_pairs"] = [list(x) for x in j["reported_pairs"]]
+            if "all_pairs" in j:
+                j["all_pairs"] = [list(x) for x in sorted(map(tuple, j["all_pairs"]))]
+        ca = {f"{x['i']}-{x['j']}": x for x in ja.get("contacts", [])}
+        cb = {f"{x['i']}-{x['j']}": x for x in jb.get("contacts", [])}
+        common = sorted(set(ca) & set(cb))
+        ja["contacts"] = {k: ca[k] for k in common}
+        jb["contacts"] = {k: cb[k] for k in common}
+        return {"ok": {"json": ja}}, {"ok": {"json": jb}}, note
+    return a, b, None
+
+
+def tiny_vector(c):
+    """known-finding class C20-NORM-UNDERFLOW: some array argument has a non-zero entry and all its entries are below
+    1e-150 in magnitude, so the squares in numpy's np.linalg.norm underflow (to 0 or to denormals) while numba's
+    BLAS-based norm scales first"""
+    def tiny(a):
+        v = np.asarray(a, dtype=float).reshape(-1)
+        m = float(np.max(np.abs(v))) if v.size else 0.0
+        return 0.0 < m < 1e-150
+    if c["k"] == "call":
+        return any(isinstance(a, dict) and "a" in a and tiny(a["a"]) for a in c["args"])
+    if c["k"] in ("collider", "mesh"):
+        return any(tiny(d) for d in [o.get("d") for o in c.get("ops", []) if o.get("d") is not None] + list(c.get("dirs", [])))
+    return False
+
+
 COLL_TOL = dict(gjk_jolt=1e-5, gjk_original=1e-3, nesterov_distance=1e-3, nesterov_prim_distance=1e-3, nesterov=1e-3,
                 nesterov_prim=1e-3, mpr_pen=2e-3, epa=1e-6, support=1e-9, center=1e-9)
 
@@ -658,6 +732,7 @@ def run(tier, seed, replay=None):
 
     # ---------------------------------------------------------------- compare
     fam_hist, fam_cmp = {}, {}
+    known = {e["id"]: e for e in R.known}
     distinct = set()
     fails = []
     suspects = []
@@ -696,6 +771,9 @@ def run(tier, seed, replay=None):
             diffs, discrete = [], []
             L = float(c.get("L", 1.0))
             rel = float(c.get("rel", REL))
+            a, b, nnote = normalise(c, a, b)
+            if nnote:
+                T.hit(nnote)
             cmp(a["ok"], b["ok"], rel * L + 1e-12 * L, rel, "", diffs, discrete)
             if a.get("mutated") != b.get("mutated"):
                 discrete.append(("mutated", a.get("mutated"), b.get("mutated")))
@@ -707,7 +785,11 @@ def run(tier, seed, replay=None):
             elif discrete:
                 suspects.append((idx, discrete))
         if what:
-            fails.append((c, what))
+            if tiny_vector(c) and "C20-NORM-UNDERFLOW" in known:
+                T.hit("known_C20-NORM-UNDERFLOW")
+                R.known_finding("C20-NORM-UNDERFLOW", known["C20-NORM-UNDERFLOW"].get("what", "")[:300])
+            else:
+                fails.append((c, what))
 
     # ---------------------------------------------------------------- discrete mismatches: boundary or real?
     n_boundary = 0
